@@ -382,7 +382,7 @@ pub fn deflate_reset_case(t: &mut Tape, ctx: &Ctx, o: &mut Outcome) {
         let mut x = crate::tape::Xs::new(seed ^ 0xC14);
         let a1 = 2 + x.below(200);
         // just past one slide: the valid data then ends near w-262.., stale bytes of the history lie above
-        plan1.data = (0..2 * w - 262 + x.below(400)).map(|_| b'a' + x.below(a1) as u8).collect();
+        plan1.data = (0..2 * w - 262 + x.below(400)).map(|_| b'a'.wrapping_add(x.below(a1) as u8)).collect();
         plan1.dict = None;
         plan1.ops = vec![DefOp::Deflate { in_chunk: plan1.data.len(), out_chunk: 1 << 16, flush: Z_NO_FLUSH }];
         plan1.cycles = 1;
